@@ -1,6 +1,7 @@
 package jschema
 
 import (
+	stdJSON "encoding/json"
 	stdErrors "errors"
 	"fmt"
 	"io"
@@ -130,7 +131,18 @@ func (s *Schema) AddType(name string, sc jschema.Schema) (err error) {
 			return fmt.Errorf("generate example for Regex type: %w", err)
 		}
 
-		typSc := New(name, fmt.Sprintf("%q // {regex: %q}", example, pattern))
+		// JSON quoting, not Go quoting: %q writes a control character as \x00,
+		// which the schema scanner refuses.
+		exampleJSON, err := stdJSON.Marshal(string(example))
+		if err != nil {
+			return fmt.Errorf("quote example for Regex type: %w", err)
+		}
+		patternJSON, err := stdJSON.Marshal(pattern)
+		if err != nil {
+			return fmt.Errorf("quote pattern for Regex type: %w", err)
+		}
+
+		typSc := New(name, fmt.Sprintf("%s // {regex: %s}", exampleJSON, patternJSON))
 		if err := typSc.load(); err != nil {
 			return fmt.Errorf("load added type: %w", err)
 		}
